@@ -326,6 +326,58 @@ func c07BuildPool(verifSeed int64) []*sbom.Document {
 		d.NodeList.Edges = append(d.NodeList.Edges, &sbom.Edge{})
 		d.NodeList.Nodes = append(d.NodeList.Nodes, &sbom.Node{})
 	})
+	// every defined value of every enum occurs in this document (edge types, purposes, hash algorithms,
+	// external reference types, identifier types, document types)
+	{
+		d := sbom.NewDocument()
+		d.Metadata.Id = "urn:uuid:44444444-0000-4000-8000-000000000001"
+		d.Metadata.Name = "enum-sweep"
+		root := &sbom.Node{Id: "sweep-root", Name: "root", Version: "1", Type: sbom.Node_PACKAGE}
+		d.NodeList.Nodes = append(d.NodeList.Nodes, root)
+		d.NodeList.RootElements = []string{"sweep-root"}
+		var ets []int
+		for n := range sbom.Edge_Type_name {
+			ets = append(ets, int(n))
+		}
+		sort.Ints(ets)
+		for i, et := range ets {
+			id := fmt.Sprintf("sweep-%02d", i)
+			n := &sbom.Node{Id: id, Name: "n" + id, Version: "1", Type: sbom.Node_PACKAGE}
+			d.NodeList.Nodes = append(d.NodeList.Nodes, n)
+			d.NodeList.Edges = append(d.NodeList.Edges, &sbom.Edge{Type: sbom.Edge_Type(et), From: "sweep-root", To: []string{id}})
+		}
+		all := &sbom.Node{Id: "sweep-all", Name: "all", Version: "2", Type: sbom.Node_PACKAGE, Hashes: map[int32]string{}, Identifiers: map[int32]string{}}
+		for n := range sbom.Purpose_name {
+			all.PrimaryPurpose = append(all.PrimaryPurpose, sbom.Purpose(n))
+		}
+		sort.Slice(all.PrimaryPurpose, func(i, j int) bool { return all.PrimaryPurpose[i] < all.PrimaryPurpose[j] })
+		for n := range sbom.HashAlgorithm_name {
+			all.Hashes[n] = fmt.Sprintf("%040x", n)
+		}
+		for n := range sbom.SoftwareIdentifierType_name {
+			all.Identifiers[n] = fmt.Sprintf("id-%d", n)
+		}
+		var erts []int
+		for n := range sbom.ExternalReference_ExternalReferenceType_name {
+			erts = append(erts, int(n))
+		}
+		sort.Ints(erts)
+		for _, n := range erts {
+			all.ExternalReferences = append(all.ExternalReferences, &sbom.ExternalReference{Url: fmt.Sprintf("https://example.com/%d", n), Type: sbom.ExternalReference_ExternalReferenceType(n)})
+		}
+		d.NodeList.Nodes = append(d.NodeList.Nodes, all)
+		d.NodeList.Edges = append(d.NodeList.Edges, &sbom.Edge{Type: sbom.Edge_contains, From: "sweep-root", To: []string{"sweep-all"}})
+		var dts []int
+		for n := range sbom.DocumentType_SBOMType_name {
+			dts = append(dts, int(n))
+		}
+		sort.Ints(dts)
+		for _, n := range dts {
+			t := sbom.DocumentType_SBOMType(n)
+			d.Metadata.DocumentTypes = append(d.Metadata.DocumentTypes, &sbom.DocumentType{Type: &t})
+		}
+		pool = append(pool, d)
+	}
 	// documents that went through protobom once already (written, parsed again), once and twice
 	for i, f := range []string{c07Formats[0], c07Formats[len(c07Formats)-1], c07Formats[0], c07Formats[1]} {
 		d := base(fmt.Sprintf("rt%d", i))
